@@ -1,14 +1,191 @@
 /-
-  C07 — every grammatical experiment compiles and evaluates (placeholder statements are
-  added as the proofs land; see DESIGN.md §6 C07).
+  C07 — every grammatical experiment compiles and evaluates: the emitted body is well
+  indented, the parameter list has no duplicate, so `compile()` accepts the module (given
+  that no identifier is a Python keyword or one of the names the skeleton itself uses —
+  finding family K1); and a call with all declared fields present ends in a group of the
+  routed statement, the unroutable error, or the TypeError of the reference semantics —
+  never a SyntaxError, a NameError or `None`.
 -/
+import Pyab.Generated.Config
 import Pyab.Spec.Semantics
+import Pyab.Spec.Run
 import Pyab.Proofs.Routing
+import Pyab.Proofs.Lines
+import Pyab.Proofs.ParamList
+import Pyab.Proofs.OutcomeClass
+import Pyab.Properties.C09
 namespace Pyab.Properties
-open Pyab Pyab.Spec
+open Pyab Pyab.Spec Pyab.Proofs Pyab.Proofs.Run
 
-/-- the emitted body is well indented: every header is followed by a deeper line, no other
-    line goes deeper than its predecessor — for every conditional and both layouts -/
-theorem C07_trivial_placeholder : True := trivial
+/-- **The emitted body is well indented**: every header (`if` / `elif` / `else`) is followed by
+    a deeper line, no other line goes deeper than its predecessor — for every conditional
+    and every indentation depth (both layouts). -/
+theorem C07_body_well_indented (cfg : GenCfg) (c : Cond) (d : Nat) (L : List ILine)
+    (h : bodyLines cfg d c = .ok L) : wellIndented L = true :=
+  bodyLines_wellIndented cfg c d L h
+
+example : wellIndented [(2, .ifL (.cmp (.name "country") "==" (.const (.int 1)))),
+    (3, .ret [.int 10, .int 20] [.i 1, .i 1]), (2, .elseL), (3, .ret [.int 30] [.i 1]), (2, .raiseU)] = true :=
+  C07_body_well_indented Generated.genCfg exC09.cond 2 _ rfl
+
+/-- `sorted(set(...))` has no duplicates: it is strictly increasing -/
+theorem C07_sortDedup_strictly_sorted (xs : List String) : (sortDedup xs).Pairwise (· < ·) :=
+  pairwise_sortDedup xs
+
+/-- … with the same members -/
+theorem C07_sortDedup_mem (xs : List String) (n : String) : n ∈ sortDedup xs ↔ n ∈ xs :=
+  mem_sortDedup n xs
+
+/-- **No duplicate parameter**: with the de-duplicated signature, the parameter list followed
+    by `**kwargs` has no repeated name, provided no field is called `kwargs` (K1). -/
+theorem C07_params_no_duplicates (cfg : GenCfg) (hd : cfg.dedupSig = true) (e : Experiment)
+    (hk : "kwargs" ∉ e.params cfg) : hasDup (e.params cfg ++ ["kwargs"]) = false := by
+  rw [hasDup_eq_false_iff]
+  refine List.nodup_append.2 ⟨nodup_params cfg hd e, by simp, ?_⟩
+  intro a ha b hb hab
+  simp only [List.mem_singleton] at hb
+  subst hab; subst hb
+  exact hk ha
+
+/-- a field that is both splitter and condition field (the README example) -/
+example : hasDup (Experiment.params Generated.genCfg
+    { exC09 with splitters := some ["uid", "country"] } ++ ["kwargs"]) = false :=
+  C07_params_no_duplicates _ rfl _ (by decide)
+
+/-- without the de-duplication the same experiment has `country` twice -/
+example : hasDup (Experiment.params { Generated.genCfg with dedupSig := false }
+    { exC09 with splitters := some ["uid", "country"] } ++ ["kwargs"]) = true := by decide
+
+theorem not_kwargs_of_pyNameOK (cfg : GenCfg) (e : Experiment) (h : e.pyNameOK cfg = true) :
+    "kwargs" ∉ e.params cfg := by
+  intro hmem
+  unfold Experiment.pyNameOK at h
+  simp only [List.all_eq_true] at h
+  have := h "kwargs" (List.mem_cons_of_mem _ (List.mem_append_left _ hmem))
+  revert this
+  decide
+
+/-- **The module compiles.**  If no identifier is a keyword, a name of the skeleton or
+    dunder-prefixed (`pyNameOK`; K1 otherwise), the signature is de-duplicated, and text
+    and body could be rendered (no int literal beyond the digit limit; K2 otherwise), then
+    every check `compile()` makes on the generated text passes. -/
+theorem C07_compile_ok (cfg : GenCfg) (e : Experiment) (hn : e.pyNameOK cfg = true)
+    (hd : cfg.dedupSig = true) (txt : String) (ht : genText cfg e false = .ok txt)
+    (L : List ILine) (hL : bodyLines cfg 2 e.cond = .ok L) :
+    compileChecks cfg e = .ok () := by
+  unfold compileChecks
+  have hkw : (e.id :: (e.params cfg ++ e.condIds cfg)).any (fun n => pyKeywords.contains n) = false := by
+    rw [List.any_eq_false]
+    intro n hmem
+    unfold Experiment.pyNameOK at hn
+    simp only [List.all_eq_true] at hn
+    have := hn n hmem
+    simp only [Bool.and_eq_true, Bool.not_eq_true'] at this
+    rw [this.1.1]
+    exact Bool.false_ne_true
+  have hdup := C07_params_no_duplicates cfg hd e (not_kwargs_of_pyNameOK cfg e hn)
+  have hwi := C07_body_well_indented cfg e.cond 2 L hL
+  simp only [ht, hkw, hdup, hL, hwi, bind, Except.bind, pure, Except.pure, Bool.false_eq_true, if_false,
+    Bool.not_true]
+
+example : compileChecks Generated.genCfg exC09 = .ok () :=
+  C07_compile_ok Generated.genCfg exC09 (by decide +kernel) rfl _ rfl _ rfl
+
+/-- **Outcome classes.**  With the module compiled and every declared field passed, a call
+    ends in exactly one of: the choice stage applied to the population and weights of the
+    return statement routing selects; the unroutable error when routing selects none; the
+    TypeError of the reference semantics (an ordering or membership test on values Python
+    does not order). -/
+theorem C07_outcome_class (cfg : RunCfg) (hc : CanonicalExpr cfg.toGenCfg) (hs : cfg.strReprSalt = true)
+    (e : Experiment) (env : Env) (L : List ILine) (hL : bodyLines cfg.toGenCfg 2 e.cond = .ok L)
+    (hp : ∀ n ∈ e.params cfg.toGenCfg, (env.get n).isSome = true) :
+    (∃ gs pop ws, specRoute env e.cond = .ok (some gs) ∧ retVals cfg.toGenCfg gs = .ok (pop, ws) ∧
+        runGenerated cfg e env = choiceStage cfg e env pop ws) ∨
+    (specRoute env e.cond = .ok none ∧ runGenerated cfg e env = .error .unroutable) ∨
+    (specRoute env e.cond = .error .typeError ∧ runGenerated cfg e env = .error .typeError) :=
+  runGenerated_class cfg hc (readBack_repr cfg.toGenCfg) hs e env L hL hp
+
+/-- country 2 takes the `else` branch: the choice is made on `[30]` -/
+example : (∃ gs pop ws, specRoute [("uid", .str "u1"), ("country", .int 2)] exC09.cond = .ok (some gs) ∧
+      retVals Generated.genCfg gs = .ok (pop, ws) ∧
+      runGenerated Generated.runCfg exC09 [("uid", .str "u1"), ("country", .int 2)]
+        = choiceStage Generated.runCfg exC09 [("uid", .str "u1"), ("country", .int 2)] pop ws) ∨
+    (specRoute [("uid", .str "u1"), ("country", .int 2)] exC09.cond = .ok none ∧
+      runGenerated Generated.runCfg exC09 [("uid", .str "u1"), ("country", .int 2)] = .error .unroutable) ∨
+    (specRoute [("uid", .str "u1"), ("country", .int 2)] exC09.cond = .error .typeError ∧
+      runGenerated Generated.runCfg exC09 [("uid", .str "u1"), ("country", .int 2)] = .error .typeError) :=
+  C07_outcome_class Generated.runCfg C02_generator_canonical rfl exC09 _ _ rfl (by decide)
+
+/-- a successful call with splitters returns a group of the routed statement -/
+theorem C07_result_in_routed_population (cfg : RunCfg) (hc : CanonicalExpr cfg.toGenCfg)
+    (hs : cfg.strReprSalt = true)
+    (e : Experiment) (env : Env) (L : List ILine) (hL : bodyLines cfg.toGenCfg 2 e.cond = .ok L)
+    (hp : ∀ n ∈ e.params cfg.toGenCfg, (env.get n).isSome = true)
+    (v : PyVal) (hrun : runGenerated cfg e env = .ok (.group v)) :
+    ∃ gs pop ws, specRoute env e.cond = .ok (some gs) ∧ retVals cfg.toGenCfg gs = .ok (pop, ws) ∧ v ∈ pop := by
+  rcases C07_outcome_class cfg hc hs e env L hL hp with ⟨gs, pop, ws, hr, hret, h⟩ | ⟨_, h⟩ | ⟨_, h⟩
+  · refine ⟨gs, pop, ws, hr, hret, ?_⟩
+    rw [h] at hrun
+    unfold choiceStage at hrun
+    cases hlv : e.localVars with
+    | nil =>
+        simp only [hlv, bind_ok_iff] at hrun
+        obtain ⟨pk, _, hpk⟩ := hrun
+        cases pk <;> simp [pure, Except.pure, throw, throwThe, MonadExceptOf.throw] at hpk
+    | cons x xs =>
+        simp only [hlv, bind_ok_iff] at hrun
+        obtain ⟨key, _, hk⟩ := hrun
+        cases hch : chooseByKey cfg.keyUtf8 key pop ws with
+        | error err => simp [hch, Functor.map, Except.map] at hk
+        | ok w =>
+            simp only [hch, Functor.map, Except.map, Except.ok.injEq, Outcome.group.injEq] at hk
+            subst hk
+            exact chooseByKey_ok_mem _ _ _ _ _ hch
+  · rw [h] at hrun; cases hrun
+  · rw [h] at hrun; cases hrun
+
+example : ∃ gs pop ws, specRoute [("uid", .str "u1"), ("country", .int 2)] exC09.cond = .ok (some gs) ∧
+    retVals Generated.genCfg gs = .ok (pop, ws) ∧ PyVal.int 30 ∈ pop :=
+  C07_result_in_routed_population Generated.runCfg C02_generator_canonical rfl exC09 _ _ rfl (by decide)
+    (.int 30) (by rfl)
+
+/-- **Never a SyntaxError, a NameError, a missing-argument error or `None`** once the module
+    compiled and every declared field is passed; with the UTF-8 key encoding never an encode
+    error either.  What remains (`runtimeErr`): unroutable, TypeError of a comparison, the
+    argument errors of `deterministic_choice` on the weights (ValueError, IndexError,
+    OverflowError) and the digit-limit ValueError of `str(int)`. -/
+theorem C07_error_class (cfg : RunCfg) (hc : CanonicalExpr cfg.toGenCfg) (hs : cfg.strReprSalt = true)
+    (e : Experiment) (env : Env) (L : List ILine) (hL : bodyLines cfg.toGenCfg 2 e.cond = .ok L)
+    (hp : ∀ n ∈ e.params cfg.toGenCfg, (env.get n).isSome = true) (err : Err)
+    (h : runGenerated cfg e env = .error err) :
+    runtimeErr cfg.keyUtf8 err = true ∧
+    err ≠ .pySyntaxError ∧ err ≠ .nameError ∧ err ≠ .missingField ∧ err ≠ .other "fell-off-end" ∧
+    (cfg.keyUtf8 = true → err ≠ .encodeError) := by
+  have hr := runGenerated_err cfg hc (readBack_repr cfg.toGenCfg) hs e env L hL hp err h
+  refine ⟨hr, ?_, ?_, ?_, ?_, ?_⟩
+  · rintro rfl; simp [runtimeErr, choiceErr] at hr
+  · rintro rfl; simp [runtimeErr, choiceErr] at hr
+  · rintro rfl; simp [runtimeErr, choiceErr] at hr
+  · rintro rfl; simp [runtimeErr, choiceErr] at hr
+  · rintro hu rfl; simp [runtimeErr, hu] at hr
+
+/-- comparing a string field with `<` against an int is the reference TypeError, not a crash
+    of another kind -/
+def exC07ty : Experiment :=
+  { exC09 with cond := .ifte (.cmp (.ident "country") .lt (.int 1)) (.ret [⟨.int 10, .i 1⟩]) .none }
+
+example : runGenerated Generated.runCfg exC07ty [("uid", .str "u"), ("country", .str "x")]
+    = .error .typeError := by rfl
+
+example : runtimeErr true Err.typeError = true ∧ Err.typeError ≠ .pySyntaxError ∧ Err.typeError ≠ .nameError ∧
+    Err.typeError ≠ .missingField ∧ Err.typeError ≠ .other "fell-off-end" ∧
+    (Generated.runCfg.keyUtf8 = true → Err.typeError ≠ .encodeError) :=
+  C07_error_class Generated.runCfg C02_generator_canonical rfl exC07ty
+    [("uid", .str "u"), ("country", .str "x")] _ rfl (by decide) _ rfl
+
+
+/-- **table obligation**: the generated signature lists a field shared by splitters and
+    conditions once -/
+theorem C07_signature_deduplicated : Generated.genCfg.dedupSig = true := by decide
 
 end Pyab.Properties
